@@ -424,7 +424,7 @@ def _sizes(rnd, rounds=8):
 
 def wl_linearity(ctx, R):
     from ..util import precision
-    rounds = ctx.pick(3, 1500)
+    rounds = ctx.pick(3, 1200)
     k = -1
     st = [0]
     for rnd in range(rounds):
@@ -473,7 +473,7 @@ def wl_linearity(ctx, R):
 
 def wl_embedding(ctx, R):
     from ..util import precision
-    rounds = ctx.pick(4, 1600)
+    rounds = ctx.pick(4, 1200)
     k = -1
     st = [0]
     for rnd in range(rounds):
@@ -525,7 +525,7 @@ def wl_embedding(ctx, R):
 
 def wl_transpose(ctx, R):
     from ..util import precision
-    rounds = ctx.pick(4, 1200)
+    rounds = ctx.pick(4, 900)
     k = -1
     st = [0]
     for rnd in range(rounds):
@@ -644,7 +644,7 @@ def ones_mask(v, shape):
 
 def wl_allpass(ctx, R):
     from ..util import precision
-    rounds = ctx.pick(8, 2400)
+    rounds = ctx.pick(8, 1800)
     k = -1
     st = [0]
     for rnd in range(rounds):
@@ -713,7 +713,7 @@ def wl_allpass(ctx, R):
 def wl_masks(ctx, R):
     """Additivity / linearity in the mask and the Babinet composition at arbitrary mask sampling (not the exact band)."""
     from ..util import precision
-    rounds = ctx.pick(4, 900)
+    rounds = ctx.pick(4, 700)
     k = -1
     st = [0]
     for rnd in range(rounds):
@@ -827,7 +827,7 @@ def wl_history(ctx, R):
     relation instance is judged at the full float64 tolerance."""
     from prysm import fttools
     from prysm.conf import config
-    n = ctx.pick(400, 300000)
+    n = ctx.pick(400, 150000)
     maxlen = ctx.pick(4, 10)
     for k in range(n):
         if not ctx.mine(k):
